@@ -90,6 +90,11 @@ type Chan struct {
 	buf    []Value
 	closed bool
 	id     int
+	// unbuffered rendezvous (scheduler mode): a sender offers a value and waits until it is taken
+	offered     bool
+	offer       Value
+	taken       bool
+	recvWaiting int
 	// goroutines blocked
 	recvq []*waiter
 	sendq []*waiter
